@@ -93,7 +93,11 @@ def crandn(rng, shape, dtype=np.complex128):
 
 
 def nrm(a):
-    return float(np.linalg.norm(np.asarray(a).ravel()))
+    a = np.asarray(a)
+    if a.dtype.kind in "fc" and a.dtype.itemsize < (16 if a.dtype.kind == "c" else 8):
+        # (single precision: squares of values near 1e-30 underflow in float32)
+        a = a.astype(np.complex128 if a.dtype.kind == "c" else np.float64)
+    return float(np.linalg.norm(a.ravel()))
 
 
 def relerr(a, b):
